@@ -754,6 +754,136 @@ theorem collectSel_count (t : List Cand) (l : List V) : countOf t (collectSel l)
   unfold collectSel countOf
   exact this
 
+def keysOf (acc : List (List Cand × Nat)) : List (List Cand) := acc.map (·.1)
+
+theorem keysOf_bumpTie (cs : List Cand) : ∀ acc : List (List Cand × Nat),
+    keysOf (bumpTie cs acc) = if cs ∈ keysOf acc then keysOf acc else keysOf acc ++ [cs]
+  | [] => by simp [bumpTie, keysOf]
+  | p :: ps => by
+      have ih := keysOf_bumpTie cs ps
+      by_cases hp : p.1 = cs
+      · simp [bumpTie, keysOf, hp]
+      · have hne : ¬ cs = p.1 := fun e => hp e.symm
+        simp only [keysOf] at ih
+        by_cases hm : cs ∈ ps.map (·.1)
+        · simp [bumpTie, keysOf, hp, hne, hm, ih]
+        · simp [bumpTie, keysOf, hp, hne, hm, ih]
+
+theorem keysOf_foldl : ∀ (l : List V) (acc : List (List Cand × Nat)),
+    keysOf (l.foldl (fun acc x => match x with
+      | .tie cs => bumpTie cs acc
+      | _ => acc) acc) = keysOf acc ++ (distinctTies l).filter (fun t => decide (t ∉ keysOf acc))
+  | [], acc => by simp [distinctTies]
+  | x :: xs, acc => by
+      simp only [List.foldl_cons]
+      rw [keysOf_foldl xs]
+      cases x with
+      | tie t =>
+        simp only [keysOf_bumpTie, distinctTies]
+        by_cases hm : t ∈ keysOf acc
+        · simp only [hm, if_true, List.filter_cons, decide_not, not_true_eq_false, decide_false,
+            Bool.not_true, Bool.false_eq_true, if_false, List.filter_filter]
+          congr 1
+          apply List.filter_congr
+          intro u _
+          by_cases hu : u ∈ keysOf acc
+          · simp [hu]
+          · have : u ≠ t := fun e => hu (e ▸ hm)
+            simp [hu, this]
+        · simp only [hm, if_false, List.filter_cons, decide_not, decide_true, Bool.not_false, if_true,
+            List.append_assoc, List.singleton_append, List.filter_filter]
+          congr 2
+          apply List.filter_congr
+          intro u _
+          by_cases hu : u ∈ keysOf acc <;> by_cases hut : u = t <;> simp [hu, hut]
+      | num _ => simp [distinctTies]
+      | cand _ => simp [distinctTies]
+      | none => simp [distinctTies]
+      | list _ => simp [distinctTies]
+      | dict _ => simp [distinctTies]
+
+/-- the ties reach the tiebreaker in the order of their first appearance in the main result, each once -/
+theorem collectSel_keys (l : List V) : keysOf (collectSel l) = distinctTies l := by
+  have := keysOf_foldl l []
+  simp only [keysOf, List.map_nil, List.not_mem_nil, not_false_eq_true, decide_true, List.nil_append] at this
+  have hf : (distinctTies l).filter (fun _ => true) = distinctTies l := List.filter_eq_self.mpr (fun _ _ => rfl)
+  rw [hf] at this
+  unfold collectSel keysOf
+  exact this
+
+theorem mem_distinctTies (t : List Cand) : ∀ (l : List V), t ∈ distinctTies l ↔ V.tie t ∈ l
+  | [] => by simp [distinctTies]
+  | x :: xs => by
+      have ih := mem_distinctTies t xs
+      cases x with
+      | tie u =>
+        simp only [distinctTies, List.mem_cons, List.mem_filter, V.tie.injEq]
+        constructor
+        · rintro (h | ⟨h, _⟩)
+          · exact Or.inl h
+          · exact Or.inr (ih.mp h)
+        · rintro (h | h)
+          · exact Or.inl h
+          · by_cases htu : t = u
+            · exact Or.inl htu
+            · exact Or.inr ⟨ih.mpr h, by simpa using htu⟩
+      | num _ => simpa [distinctTies] using ih
+      | cand _ => simpa [distinctTies] using ih
+      | none => simpa [distinctTies] using ih
+      | list _ => simpa [distinctTies] using ih
+      | dict _ => simpa [distinctTies] using ih
+
+theorem distinctTies_nodup : ∀ (l : List V), (distinctTies l).Nodup
+  | [] => by simp [distinctTies]
+  | x :: xs => by
+      have ih := distinctTies_nodup xs
+      cases x with
+      | tie u =>
+        simp only [distinctTies, List.nodup_cons, List.mem_filter]
+        exact ⟨by simp, ih.filter _⟩
+      | num _ => simpa [distinctTies] using ih
+      | cand _ => simpa [distinctTies] using ih
+      | none => simpa [distinctTies] using ih
+      | list _ => simpa [distinctTies] using ih
+      | dict _ => simpa [distinctTies] using ih
+
+theorem countOf_of_mem_nodup : ∀ (acc : List (List Cand × Nat)) (p : List Cand × Nat),
+    (keysOf acc).Nodup → p ∈ acc → countOf p.1 acc = p.2
+  | [], _, _, h => by cases h
+  | q :: qs, p, hnd, h => by
+      simp only [keysOf, List.map_cons, List.nodup_cons] at hnd
+      simp only [List.mem_cons] at h
+      rcases h with h | h
+      · subst h; simp [countOf]
+      · have hne : ¬ q.1 = p.1 := by
+          intro e
+          exact hnd.1 (e ▸ List.mem_map.mpr ⟨p, h, rfl⟩)
+        have := countOf_of_mem_nodup qs p hnd.2 h
+        simp only [countOf, List.find?_cons, hne, decide_false] at this ⊢
+        exact this
+
+theorem eq_map_of_values {f : List Cand → Nat} : ∀ (acc : List (List Cand × Nat)),
+    (∀ p ∈ acc, p.2 = f p.1) → acc = (keysOf acc).map (fun t => (t, f t))
+  | [], _ => rfl
+  | q :: qs, h => by
+      have hq := h q (by simp)
+      have := eq_map_of_values (f := f) qs (fun p hp => h p (by simp [hp]))
+      simp only [keysOf, List.map_cons, List.map_map] at this ⊢
+      rw [← hq]
+      congr 1
+
+/-- **collectSel_order.**  What `TieBreaking._collect_ties` hands to the loop over the ties is: every distinct tie
+    of the main result, in order of first appearance, exactly once, with exactly its number of places -/
+theorem collectSel_order (l : List V) :
+    collectSel l = (distinctTies l).map (fun t => (t, tiePlaces t l)) := by
+  have hk := collectSel_keys l
+  have hnd : (keysOf (collectSel l)).Nodup := hk ▸ distinctTies_nodup l
+  have := eq_map_of_values (f := fun t => tiePlaces t l) (collectSel l) (fun p hp => by
+    rw [← collectSel_count p.1 l, countOf_of_mem_nodup _ p hnd hp])
+  rw [hk] at this
+  exact this
+
+
 /-- `fillTie` changes nothing else: every place that does not hold the tie keeps its entry … -/
 theorem fillTie_other_places (t : List Cand) : ∀ (res chosen out : List V), fillTie t res chosen = some out →
     ∀ (i : Nat) (x : V), res[i]? = some x → notTie t x = true → out[i]? = some x
@@ -803,6 +933,241 @@ theorem fillTie_length (t : List Cand) : ∀ (res chosen out : List V), fillTie 
         cases hf : fillTie t xs cs with
         | none => simp [hf] at h
         | some o => simp [hf] at h; subst h; simp [fillTie_length t xs cs o hf]
+
+theorem mem_takeWhile_holds {α : Type} (p : α → Bool) : ∀ (l : List α) (x : α), x ∈ l.takeWhile p → p x = true
+  | [], _, h => by cases h
+  | y :: ys, x, h => by
+      by_cases hy : p y = true
+      · simp only [List.takeWhile_cons, hy, if_true, List.mem_cons] at h
+        rcases h with h | h
+        · subst h; exact hy
+        · exact mem_takeWhile_holds p ys x h
+      · simp [List.takeWhile_cons, hy] at h
+
+theorem notTie_false_iff (t : List Cand) (x : V) : notTie t x = false ↔ x = .tie t := by
+  cases x <;> simp [notTie]
+
+theorem replaceFirst_self (t : List Cand) : ∀ (r : List V), 1 ≤ tiePlaces t r → replaceFirst t (.tie t) r = some r
+  | [], h => by simp [tiePlaces] at h
+  | x :: xs, h => by
+      by_cases hx : notTie t x = true
+      · rw [replaceFirst_cons_other t x _ hx]
+        have : 1 ≤ tiePlaces t xs := by
+          cases x <;> simp_all [tiePlaces, notTie, List.filter_cons]
+        simp [replaceFirst_self t xs this]
+      · have hxt : x = .tie t := (notTie_false_iff t x).mp (by simpa using hx)
+        subst hxt
+        simp [replaceFirst]
+
+theorem replaceSel_all_tie (t : List Cand) (r : List V) : ∀ (ts : List V), (∀ x ∈ ts, x = V.tie t) →
+    (ts = [] ∨ 1 ≤ tiePlaces t r) → replaceSel r t ts = .ok r
+  | [], _, _ => rfl
+  | x :: xs, hall, hp => by
+      have hx := hall x (by simp)
+      subst hx
+      have h1 : 1 ≤ tiePlaces t r := by
+        rcases hp with h | h
+        · cases h
+        · exact h
+      simp only [replaceSel, List.foldlM_cons, replaceFirst_self t r h1, ok_bind]
+      exact replaceSel_all_tie t r xs (fun y hy => hall y (by simp [hy])) (Or.inr h1)
+
+theorem tiePlaces_cons_tie (t : List Cand) (xs : List V) : tiePlaces t (V.tie t :: xs) = tiePlaces t xs + 1 := by
+  simp [tiePlaces, List.filter_cons]
+
+theorem tiePlaces_cons_other (t : List Cand) (x : V) (hx : notTie t x = true) (xs : List V) :
+    tiePlaces t (x :: xs) = tiePlaces t xs := by
+  cases x <;> simp_all [tiePlaces, notTie, List.filter_cons]
+
+theorem fillTie_all_tie (t : List Cand) : ∀ (r ts : List V), (∀ x ∈ ts, x = V.tie t) →
+    ts.length ≤ tiePlaces t r → fillTie t r ts = some r
+  | r, [], _, _ => by simp [fillTie]
+  | [], _ :: _, _, h => by simp [tiePlaces] at h
+  | x :: xs, c :: cs, hall, h => by
+      have hc := hall c (by simp)
+      subst hc
+      by_cases hx : notTie t x = true
+      · rw [fillTie_cons_other t x hx]
+        rw [tiePlaces_cons_other t x hx] at h
+        simp [fillTie_all_tie t xs (V.tie t :: cs) hall h]
+      · have hxt : x = .tie t := (notTie_false_iff t x).mp (by simpa using hx)
+        subst hxt
+        rw [tiePlaces_cons_tie] at h
+        simp only [fillTie, if_true]
+        have := fillTie_all_tie t xs cs (fun y hy => hall y (by simp [hy])) (by simpa using h)
+        simp [this]
+
+theorem fillTie_some (t : List Cand) : ∀ (res cs : List V), cs.length ≤ tiePlaces t res →
+    ∃ r, fillTie t res cs = some r
+  | res, [], _ => ⟨res, by simp [fillTie]⟩
+  | [], _ :: _, h => by simp [tiePlaces] at h
+  | x :: xs, c :: cs, h => by
+      by_cases hx : notTie t x = true
+      · rw [fillTie_cons_other t x hx]
+        rw [tiePlaces_cons_other t x hx] at h
+        obtain ⟨r, hr⟩ := fillTie_some t xs (c :: cs) h
+        exact ⟨x :: r, by simp [hr]⟩
+      · have hxt : x = .tie t := (notTie_false_iff t x).mp (by simpa using hx)
+        subst hxt
+        rw [tiePlaces_cons_tie] at h
+        obtain ⟨r, hr⟩ := fillTie_some t xs cs (by simpa using h)
+        exact ⟨c :: r, by simp [fillTie, hr]⟩
+
+theorem tiePlaces_fillTie (t : List Cand) : ∀ (res cs r : List V), cs.all (notTie t) = true →
+    fillTie t res cs = some r → tiePlaces t r + cs.length = tiePlaces t res
+  | res, [], r, _, h => by simp [fillTie] at h; subst h; simp
+  | [], _ :: _, r, _, h => by simp [fillTie] at h
+  | x :: xs, c :: cs, r, hall, h => by
+      simp only [List.all_cons, Bool.and_eq_true] at hall
+      by_cases hx : notTie t x = true
+      · rw [fillTie_cons_other t x hx] at h
+        cases hf : fillTie t xs (c :: cs) with
+        | none => simp [hf] at h
+        | some o =>
+          simp [hf] at h; subst h
+          have := tiePlaces_fillTie t xs (c :: cs) o (by simp [hall.1, hall.2]) hf
+          rw [tiePlaces_cons_other t x hx, tiePlaces_cons_other t x hx]
+          exact this
+      · have hxt : x = .tie t := (notTie_false_iff t x).mp (by simpa using hx)
+        subst hxt
+        simp only [fillTie, if_true] at h
+        cases hf : fillTie t xs cs with
+        | none => simp [hf] at h
+        | some o =>
+          simp [hf] at h; subst h
+          have := tiePlaces_fillTie t xs cs o hall.2 hf
+          rw [tiePlaces_cons_tie, tiePlaces_cons_other t c hall.1]
+          simp only [List.length_cons]
+          omega
+
+theorem fillTie_append (t : List Cand) (ts : List V) : ∀ (cs res : List V), cs.all (notTie t) = true →
+    fillTie t res (cs ++ ts) = (fillTie t res cs).bind (fun r => fillTie t r ts)
+  | [], res, _ => by simp [fillTie]
+  | c :: cs, res, hall => by
+      simp only [List.all_cons, Bool.and_eq_true] at hall
+      rw [List.cons_append, fillTie_step t c hall.1, fillTie_step t c hall.1]
+      cases replaceFirst t c res with
+      | none => rfl
+      | some r => simp [fillTie_append t ts cs r hall.2]
+
+/-- the code's `result[result.index(tie)] = cand` loop and filling the places in order agree for every answer that
+    names the tie itself only at the end and is not longer than the tie has places -/
+theorem replaceSel_eq_fill_tiesLast (t : List Cand) (chosen res : List V) (hl : tiesLast t chosen = true)
+    (hlen : chosen.length ≤ tiePlaces t res) :
+    replaceSel res t chosen = (match fillTie t res chosen with
+      | some r => .ok r
+      | Option.none => .error .valueError) := by
+  have hsplit : chosen = chosen.takeWhile (notTie t) ++ chosen.dropWhile (notTie t) :=
+    (List.takeWhile_append_dropWhile).symm
+  have hcs : (chosen.takeWhile (notTie t)).all (notTie t) = true := by
+    rw [List.all_eq_true]; intro x hx; exact mem_takeWhile_holds _ _ x hx
+  have hts : ∀ x ∈ chosen.dropWhile (notTie t), x = V.tie t := by
+    intro x hx
+    have := (List.all_eq_true.mp hl) x hx
+    exact (notTie_false_iff t x).mp (by simpa using this)
+  have hlen' : (chosen.takeWhile (notTie t)).length + (chosen.dropWhile (notTie t)).length ≤ tiePlaces t res := by
+    rw [← List.length_append, ← hsplit]; exact hlen
+  obtain ⟨r, hr⟩ := fillTie_some t res (chosen.takeWhile (notTie t)) (by omega)
+  have hpl := tiePlaces_fillTie t res _ r hcs hr
+  have hfill : fillTie t res chosen = some r := by
+    rw [hsplit, fillTie_append t _ _ res hcs, hr]
+    exact fillTie_all_tie t r _ hts (by omega)
+  have hrep : replaceSel res t chosen = .ok r := by
+    rw [hsplit]
+    unfold replaceSel
+    rw [List.foldlM_append]
+    have h1 := replaceSel_eq_fill t (chosen.takeWhile (notTie t)) res hcs
+    unfold replaceSel at h1
+    rw [h1, hr]
+    have h2 := replaceSel_all_tie t r (chosen.dropWhile (notTie t)) hts (by
+      by_cases he : chosen.dropWhile (notTie t) = []
+      · exact Or.inl he
+      · right
+        have : 0 < (chosen.dropWhile (notTie t)).length := List.length_pos_iff.mpr he
+        omega)
+    unfold replaceSel at h2
+    exact h2
+  rw [hrep, hfill]
+
+
+theorem tieLoop_eq_fill (tb : Sem) (votes : V) : ∀ (ties : List (List Cand × Nat)) (res : List V),
+    answersTiesLast tb votes ties res = true →
+    ties.foldlM (fun res t => do
+        let chosen ← tieChoice tb votes t.1 t.2
+        replaceSel res t.1 chosen) res
+      = ties.foldlM (fun res t => do
+        let chosen ← tieChoice tb votes t.1 t.2
+        match fillTie t.1 res chosen with
+        | some r => pure r
+        | Option.none => throw .valueError) res
+  | [], _, _ => rfl
+  | t :: ts, res, h => by
+      simp only [List.foldlM_cons]
+      unfold answersTiesLast at h
+      cases hch : tieChoice tb votes t.1 t.2 with
+      | error e => rfl
+      | ok chosen =>
+        rw [hch] at h
+        simp only [Bool.and_eq_true, decide_eq_true_eq] at h
+        obtain ⟨⟨hl, hlen⟩, hrest⟩ := h
+        simp only [ok_bind]
+        have hstep := replaceSel_eq_fill_tiesLast t.1 chosen res hl hlen
+        rw [hstep]
+        cases hf : fillTie t.1 res chosen with
+        | none => rfl
+        | some r =>
+          rw [hstep, hf] at hrest
+          simp only [ok_bind]
+          exact tieLoop_eq_fill tb votes ts r hrest
+
+/-- **a tiebreaker that answers with the very tie it was asked to break** (e.g. Plurality tying again on all or on the
+    last places).  As long as every answer names that tie only at its END and is not longer than the tie has places,
+    the code's loop and the fill-in-order reading agree — the remaining places simply keep the tie. -/
+theorem tieBreaking_ideal_tiesLast (main tb : Sem) (a : Args)
+    (h : ∀ l, main a = .ok (.list l) → answersTiesLast tb a.votes (collectSel l) l = true) :
+    tieBreakingLaw main tb a = tieBreakingIdeal main tb a := by
+  simp only [tieBreakingLaw, tieBreakingIdeal]
+  cases hm : main a with
+  | error e => rfl
+  | ok r =>
+    cases r with
+    | list l =>
+      simp only [ok_bind]
+      rw [tieLoop_eq_fill tb a.votes (collectSel l) l (h l hm)]
+      rfl
+    | dict d => rfl
+    | num _ => rfl
+    | cand _ => rfl
+    | tie _ => rfl
+    | none => rfl
+
+/-- non-vacuity: Plurality ties A, B, C for two places; the tiebreaker Plurality ties them again on both; the result
+    keeps the ties, code = fill-in-order -/
+example :
+    let a : Args := { votes := sv [(0, 9), (1, 5), (2, 5), (3, 5)], n := some (.num 3) }
+    denote plurT a = .ok (.list [.cand 0, .tie [1, 2, 3], .tie [1, 2, 3]])
+    ∧ choicesClean (denote plurT) a.votes [.cand 0, .tie [1, 2, 3], .tie [1, 2, 3]] = false
+    ∧ answersTiesLast (denote plurT) a.votes (collectSel [.cand 0, .tie [1, 2, 3], .tie [1, 2, 3]])
+        [.cand 0, .tie [1, 2, 3], .tie [1, 2, 3]] = true
+    ∧ eval (.tieBreaking plurT plurT) a = .ok (.list [.cand 0, .tie [1, 2, 3], .tie [1, 2, 3]])
+    ∧ tieBreakingIdeal (denote plurT) (denote plurT) a = .ok (.list [.cand 0, .tie [1, 2, 3], .tie [1, 2, 3]]) := by
+  decide +kernel
+
+/-- a tiebreaker that names the tie FIRST and a candidate after it (no selector built on `get_n_best` does) -/
+def tieFirstT : Ev := .leaf pluralitySig (fun _ => .ok (.list [.tie [1, 2, 3], .cand 1]))
+
+/-- **where they differ.**  `result[result.index(tie)] = cand` finds the place it has just written the tie into again:
+    the code (probed on the live TieBreaking with such a tiebreaker: `['x', 'a', Tie]`) and the interpreter put the
+    candidate on the FIRST tied place, filling in order puts it on the second -/
+theorem tieBreaking_tie_first_witness :
+    let a : Args := { votes := sv [(0, 9), (1, 5), (2, 5), (3, 5)], n := some (.num 3) }
+    answersTiesLast (denote tieFirstT) a.votes (collectSel [.cand 0, .tie [1, 2, 3], .tie [1, 2, 3]])
+        [.cand 0, .tie [1, 2, 3], .tie [1, 2, 3]] = false
+    ∧ eval (.tieBreaking plurT tieFirstT) a = .ok (.list [.cand 0, .cand 1, .tie [1, 2, 3]])
+    ∧ tieBreakingLaw (denote plurT) (denote tieFirstT) a = .ok (.list [.cand 0, .cand 1, .tie [1, 2, 3]])
+    ∧ tieBreakingIdeal (denote plurT) (denote tieFirstT) a = .ok (.list [.cand 0, .tie [1, 2, 3], .cand 1]) := by
+  decide +kernel
+
 
 /-- the tiebreaker is asked about exactly the tied candidates: every key of the votes it sees is a member of
     the tie -/
@@ -923,6 +1288,480 @@ theorem partyList_seats_exactly (P : Sem) (c : Option (V → Except Err V)) (a :
         | tie _ => cases h
         | none => cases h
         | list _ => cases h
+
+/-- what a list evaluator owes the party-list clause: it answers with exactly `min(n, |list|)` DISTINCT MEMBERS of the
+    list it was given.  `VL.C16.openlist_length_distinct` (Props/C16.lean) proves this of ThresholdOpenList for every
+    configuration, for a duplicate-free list containing everybody who received votes and `n ≤ |list|`. -/
+def ListEvalExact (le : ListSem) : Prop :=
+  ∀ pv k lst out, le pv k lst = .ok out →
+    ∃ (n : Nat) (members sel : List V), k.asNat = .ok n ∧ lst = .list members ∧ out = .list sel
+      ∧ sel.length = min n members.length ∧ sel.Nodup ∧ ∀ x ∈ sel, x ∈ members
+
+theorem openList_ok (le : ListSem) (hle : ListEvalExact le) (lv pl : V) (x y : Key × V)
+    (h : openList le lv pl x = .ok y) :
+    y.1 = x.1 ∧ ∃ pld members k sel, pl = .dict pld ∧ D.get? pld x.1 = some (.list members) ∧ x.2.asNat = .ok k
+      ∧ y.2 = .list sel ∧ sel.length = min k members.length ∧ sel.Nodup ∧ ∀ c ∈ sel, c ∈ members := by
+  unfold openList at h
+  cases lv with
+  | dict lvd =>
+    simp only [pure_bind] at h
+    cases hpv : D.get? lvd x.1 with
+    | none => simp [hpv] at h; cases h
+    | some pv =>
+      simp only [hpv, pure_bind] at h
+      cases pl with
+      | dict pld =>
+        simp only [pure_bind] at h
+        cases hl : D.get? pld x.1 with
+        | none => simp [hl] at h; cases h
+        | some lst =>
+          simp only [hl, pure_bind] at h
+          cases hx : le pv x.2 lst with
+          | error e => rw [hx] at h; cases h
+          | ok out =>
+            rw [hx] at h
+            have hy : y = (x.1, out) := by cases h; rfl
+            subst hy
+            obtain ⟨n, members, sel, hk, hlst, hout, hlen, hnd, hsub⟩ := hle pv x.2 lst out hx
+            subst hlst; subst hout
+            exact ⟨rfl, pld, members, n, sel, rfl, hl, hk, rfl, hlen, hnd, hsub⟩
+      | num _ => cases h
+      | cand _ => cases h
+      | tie _ => cases h
+      | none => cases h
+      | list _ => cases h
+  | num _ => cases h
+  | cand _ => cases h
+  | tie _ => cases h
+  | none => cases h
+  | list _ => cases h
+
+/-- party-list evaluation with OPEN lists seats exactly as many list candidates as the party won: for any list
+    evaluator that answers with exactly `min(n, |list|)` distinct members of the list (`ListEvalExact`), the result has
+    one entry per party of the party result — that many distinct members of the party's own list -/
+theorem partyList_open_seats_exactly (P : Sem) (le : ListSem) (hle : ListEvalExact le)
+    (c : Option (V → Except Err V)) (a : Args) (r : V)
+    (h : partyListLaw P (some le) c a = .ok r) :
+    ∃ n pl won rs, a.n = some n ∧ a.pl = some pl
+      ∧ P { votes := a.votes, n := some n, prev := a.prev, max := a.max } = .ok (.dict won)
+      ∧ r = .dict rs
+      ∧ Pointwise (fun (w : Key × V) (q : Key × V) => q.1 = w.1 ∧ ∃ pld members k sel, pl = .dict pld
+          ∧ D.get? pld w.1 = some (.list members) ∧ w.2.asNat = .ok k ∧ q.2 = .list sel
+          ∧ sel.length = min k members.length ∧ sel.Nodup ∧ ∀ x ∈ sel, x ∈ members) won rs := by
+  simp only [partyListLaw] at h
+  cases hn : a.n with
+  | none => rw [hn] at h; cases h
+  | some n =>
+    rw [hn] at h
+    cases hpl : a.pl with
+    | none => rw [hpl] at h; cases h
+    | some pl =>
+      rw [hpl] at h
+      simp only [pure_bind] at h
+      cases hw : P { votes := a.votes, n := some n, prev := a.prev, max := a.max } with
+      | error e => rw [hw] at h; cases h
+      | ok wv =>
+        rw [hw] at h
+        simp only [ok_bind] at h
+        cases wv with
+        | dict won =>
+          simp only [V.items, ok_bind] at h
+          by_cases hlv : (a.lv.getD V.none).truthy = true
+          · simp only [hlv, Bool.not_true, Bool.false_eq_true, if_false] at h
+            have fin : ∀ lv', (do let r ← List.mapM (openList le lv' pl) won; pure (V.dict r)) = Except.ok r →
+                ∃ rs, r = .dict rs ∧ Pointwise (fun (w : Key × V) (q : Key × V) => q.1 = w.1 ∧ ∃ pld members k sel,
+                  pl = .dict pld ∧ D.get? pld w.1 = some (.list members) ∧ w.2.asNat = .ok k ∧ q.2 = .list sel
+                  ∧ sel.length = min k members.length ∧ sel.Nodup ∧ ∀ x ∈ sel, x ∈ members) won rs := by
+              intro lv' h'
+              cases hm : won.mapM (openList le lv' pl) with
+              | error e => rw [hm] at h'; cases h'
+              | ok rs =>
+                rw [hm] at h'
+                exact ⟨rs, (by cases h'; rfl), Pointwise.imp (openList_ok le hle lv' pl) (mapM_ok_forall₂ hm)⟩
+            cases c with
+            | none =>
+              obtain ⟨rs, hr, hp⟩ := fin _ h
+              exact ⟨n, pl, won, rs, rfl, rfl, hw, hr, hp⟩
+            | some cf =>
+              simp only at h
+              cases hc : cf (a.lv.getD V.none) with
+              | error e => rw [hc] at h; cases h
+              | ok lv' =>
+                rw [hc] at h
+                obtain ⟨rs, hr, hp⟩ := fin lv' h
+                exact ⟨n, pl, won, rs, rfl, rfl, hw, hr, hp⟩
+          · simp [hlv] at h
+        | num _ => cases h
+        | cand _ => cases h
+        | tie _ => cases h
+        | none => cases h
+        | list _ => cases h
+
+
+/-- non-vacuity of `ListEvalExact`: the closed-list rule on duplicate-free lists is such an evaluator -/
+def takeFromTop : ListSem := fun _ k lst =>
+  match lst, k.asNat with
+  | .list m, .ok n => if m.Nodup then .ok (.list (m.take n)) else .error .valueError
+  | _, _ => .error eType
+
+theorem listEvalExact_takeFromTop : ListEvalExact takeFromTop := by
+  intro pv k lst out h
+  unfold takeFromTop at h
+  cases lst with
+  | list m =>
+    cases hk : k.asNat with
+    | error e => simp [hk] at h
+    | ok n =>
+      simp only [hk] at h
+      by_cases hnd : m.Nodup
+      · simp only [hnd, if_true] at h
+        have : out = .list (m.take n) := by cases h; rfl
+        subst this
+        exact ⟨n, m, m.take n, rfl, rfl, rfl, List.length_take, hnd.sublist (List.take_sublist _ _),
+          fun x hx => List.mem_of_mem_take hx⟩
+      · simp [hnd] at h
+  | num _ => simp at h
+  | cand _ => simp at h
+  | tie _ => simp at h
+  | none => simp at h
+  | dict _ => simp at h
+
+
+/-! ### ByParty, cell by cell -/
+
+theorem D.get?_nil (k : Key) : D.get? [] k = Option.none := rfl
+
+theorem D.get?_cons (p : Key × V) (d : D) (k : Key) :
+    D.get? (p :: d) k = if p.1 = k then some p.2 else D.get? d k := by
+  unfold D.get?
+  by_cases h : p.1 = k <;> simp [List.find?_cons, h]
+
+theorem D.has_cons (p : Key × V) (d : D) (k : Key) : D.has (p :: d) k = (decide (p.1 = k) || D.has d k) := by
+  simp [D.has]
+
+theorem D.get?_none_of_not_has (d : D) (k : Key) (h : D.has d k = false) : D.get? d k = Option.none := by
+  induction d with
+  | nil => rfl
+  | cons p ps ih =>
+    rw [D.has_cons, Bool.or_eq_false_iff] at h
+    rw [D.get?_cons]
+    have hp : ¬ p.1 = k := by simpa using h.1
+    simp [hp, ih h.2]
+
+theorem D.get?_map_set (k : Key) (v : V) (k' : Key) : ∀ (d : D),
+    D.get? (d.map (fun p => if p.1 = k then (k, v) else p)) k'
+      = if k' = k then (if D.has d k then some v else Option.none) else D.get? d k'
+  | [] => by by_cases h : k' = k <;> simp [D.get?_nil, D.has, h]
+  | p :: ps => by
+      have ih := D.get?_map_set k v k' ps
+      simp only [List.map_cons, D.get?_cons, D.has_cons]
+      by_cases hp : p.1 = k
+      · by_cases hk : k' = k
+        · subst hk; simp [hp]
+        · have : ¬ k = k' := fun e => hk e.symm
+          simp [hp, hk, this, ih]
+      · by_cases hk : k' = k
+        · subst hk
+          simp [hp, ih]
+        · by_cases hpk : p.1 = k'
+          · simp [hp, hk, hpk]
+          · simp [hp, hk, hpk, ih]
+
+theorem D.get?_append (d e : D) (k : Key) :
+    D.get? (d ++ e) k = (match D.get? d k with | some x => some x | Option.none => D.get? e k) := by
+  induction d with
+  | nil => simp [D.get?_nil]
+  | cons p ps ih =>
+    simp only [List.cons_append, D.get?_cons]
+    by_cases h : p.1 = k <;> simp [h, ih]
+
+theorem D.get?_set (d : D) (k : Key) (v : V) (k' : Key) :
+    D.get? (D.set d k v) k' = if k' = k then some v else D.get? d k' := by
+  unfold D.set
+  by_cases hh : D.has d k = true
+  · simp only [hh, if_true, D.get?_map_set]
+  · simp only [Bool.not_eq_true] at hh
+    simp only [hh, Bool.false_eq_true, if_false, D.get?_append]
+    by_cases hk : k' = k
+    · subst hk
+      simp [D.get?_none_of_not_has d k' hh, D.get?_cons, D.get?_nil]
+    · have : ¬ k = k' := fun e => hk e.symm
+      cases hg : D.get? d k' <;> simp [hk, D.get?_cons, D.get?_nil, this]
+
+
+/-- the seats of `party` in constituency `c` in a table constituency -> party -> seats -/
+def look (res : D) (c party : Key) : Option V :=
+  match D.get? res c with
+  | some (.dict inner) => D.get? inner party
+  | _ => Option.none
+
+/-- every entry of the table is a dict -/
+def AllDicts (res : D) : Prop := ∀ q ∈ res, ∃ d, q.2 = V.dict d
+
+theorem D.get?_mem (d : D) (k : Key) (v : V) (h : D.get? d k = some v) : (k, v) ∈ d := by
+  induction d with
+  | nil => simp [D.get?_nil] at h
+  | cons p ps ih =>
+    rw [D.get?_cons] at h
+    by_cases hp : p.1 = k
+    · simp only [hp, if_true, Option.some.injEq] at h
+      have : p = (k, v) := by cases p; simp_all
+      simp [this]
+    · simp only [hp, if_false] at h
+      exact List.mem_cons_of_mem _ (ih h)
+
+theorem D.mem_set (d : D) (k : Key) (v : V) (q : Key × V) (h : q ∈ D.set d k v) : q ∈ d ∨ q = (k, v) := by
+  unfold D.set at h
+  by_cases hh : D.has d k = true
+  · simp only [hh, if_true, List.mem_map] at h
+    obtain ⟨p, hp, hq⟩ := h
+    by_cases hpk : p.1 = k
+    · simp only [hpk, if_true] at hq; exact Or.inr hq.symm
+    · simp only [hpk, if_false] at hq; exact Or.inl (hq ▸ hp)
+  · simp only [hh, Bool.false_eq_true, if_false, List.mem_append, List.mem_singleton] at h
+    exact h
+
+/-- `results[constituency][party] = seats` touches exactly that cell -/
+theorem setNested_look (res : D) (hres : AllDicts res) (c party : Key) (s : V) :
+    ∃ res', setNested res c party s = .ok res' ∧ AllDicts res'
+      ∧ ∀ c' p', look res' c' p' = if c' = c ∧ p' = party then some s else look res c' p' := by
+  have hinner : ∃ inner, ((D.get? res c).getD (.dict [])) = .dict inner ∧
+      (D.get? res c = some (.dict inner) ∨ (D.get? res c = Option.none ∧ inner = [])) := by
+    cases hg : D.get? res c with
+    | none => exact ⟨[], rfl, Or.inr ⟨rfl, rfl⟩⟩
+    | some x =>
+      obtain ⟨d, hd⟩ := hres (c, x) (D.get?_mem res c x hg)
+      simp only at hd
+      subst hd
+      exact ⟨d, rfl, Or.inl rfl⟩
+  obtain ⟨inner, hin, hcase⟩ := hinner
+  refine ⟨D.set res c (.dict (D.set inner party s)), ?_, ?_, ?_⟩
+  · simp [setNested, hin, V.items]; rfl
+  · intro q hq
+    rcases D.mem_set _ _ _ q hq with h | h
+    · exact hres q h
+    · exact ⟨_, by rw [h]⟩
+  · intro c' p'
+    unfold look
+    rw [D.get?_set]
+    by_cases hc : c' = c
+    · subst hc
+      simp only [if_true, true_and, D.get?_set]
+      by_cases hp : p' = party
+      · simp [hp]
+      · simp only [hp, if_false]
+        rcases hcase with h | ⟨h, he⟩
+        · simp [h]
+        · simp [h, he, D.get?_nil]
+    · simp [hc]
+
+/-- a party's allocation touches only that party's column: afterwards the cell (c, party) holds what the allocation
+    says for c (the last entry, if the allocation lists c twice), every other cell is unchanged -/
+theorem enterAllocation_look (party : Key) : ∀ (ad : D) (res : D), AllDicts res →
+    ∃ res', enterAllocation party res ad = .ok res' ∧ AllDicts res'
+      ∧ ∀ c' p', look res' c' p' = if p' = party then
+            (match D.get? ad.reverse c' with | some s => some s | Option.none => look res c' p')
+          else look res c' p'
+  | [], res, hres => ⟨res, rfl, hres, by intro c' p'; by_cases h : p' = party <;> simp [h, D.get?_nil]⟩
+  | cs :: rest, res, hres => by
+      obtain ⟨r1, h1, hd1, hl1⟩ := setNested_look res hres cs.1 party cs.2
+      obtain ⟨r2, h2, hd2, hl2⟩ := enterAllocation_look party rest r1 hd1
+      refine ⟨r2, ?_, hd2, ?_⟩
+      · unfold enterAllocation at h2 ⊢
+        simp only [List.foldlM_cons, h1, ok_bind]
+        exact h2
+      · intro c' p'
+        rw [hl2 c' p', hl1 c' p']
+        by_cases hp : p' = party
+        · simp only [hp, if_true, and_true, List.reverse_cons, D.get?_append, D.get?_cons, D.get?_nil]
+          cases hg : D.get? rest.reverse c' with
+          | some s => simp
+          | none =>
+            by_cases hc : c' = cs.1
+            · have : cs.1 = c' := hc.symm
+              simp [hc]
+            · have : ¬ cs.1 = c' := fun e => hc e.symm
+              simp [hc, this]
+        · simp [hp]
+
+theorem look_fillEmpty (kvs : D) : ∀ (res : D) (c p : Key), look (fillEmpty kvs res) c p = look res c p := by
+  unfold fillEmpty
+  induction kvs with
+  | nil => intro res c p; rfl
+  | cons q qs ih =>
+    intro res c p
+    simp only [List.foldl_cons]
+    rw [ih]
+    by_cases hh : D.has res q.1 = true
+    · simp [hh]
+    · simp only [hh, Bool.false_eq_true, if_false]
+      unfold look
+      rw [D.get?_append]
+      cases hg : D.get? res c with
+      | some x => rfl
+      | none =>
+        simp only [D.get?_cons, D.get?_nil]
+        by_cases hq : q.1 = c <;> simp [hq, D.get?_nil]
+
+
+theorem has_fillEmpty_mono (kvs : D) : ∀ (res : D) (k : Key), D.has res k = true → D.has (fillEmpty kvs res) k = true := by
+  unfold fillEmpty
+  induction kvs with
+  | nil => intro res k h; exact h
+  | cons q qs ih =>
+    intro res k h
+    simp only [List.foldl_cons]
+    apply ih
+    by_cases hh : D.has res q.1 = true
+    · simp [hh, h]
+    · simp only [hh, Bool.false_eq_true, if_false]
+      simp only [D.has, List.any_append, Bool.or_eq_true] at h ⊢
+      exact Or.inl h
+
+theorem has_fillEmpty (kvs : D) : ∀ (res : D) (q : Key × V), q ∈ kvs → D.has (fillEmpty kvs res) q.1 = true := by
+  induction kvs with
+  | nil => intro res q hq; cases hq
+  | cons p ps ih =>
+    intro res q hq
+    simp only [List.mem_cons] at hq
+    have hstep : fillEmpty (p :: ps) res
+        = fillEmpty ps (if D.has res p.1 then res else res ++ [(p.1, V.dict [])]) := by
+      simp [fillEmpty]
+    rw [hstep]
+    rcases hq with hq | hq
+    · subst hq
+      apply has_fillEmpty_mono
+      by_cases hh : D.has res q.1 = true
+      · simp [hh]
+      · simp only [hh, Bool.false_eq_true, if_false]
+        simp [D.has]
+    · exact ih _ q hq
+
+theorem look_nil (c p : Key) : look [] c p = Option.none := rfl
+
+theorem allDicts_nil : AllDicts [] := by intro q hq; cases hq
+
+/-- the loop over the parties of the overall result: every party's column holds that party's own allocation, no party
+    touches another party's column -/
+theorem byParty_fold_look (A : Sem) (kvs : D) (prev max : V) : ∀ (od res R : D), AllDicts res →
+    od.foldlM (fun (res : D) pk => do
+        let ad ← partyAllocation A kvs prev max pk
+        enterAllocation pk.1 res ad) res = .ok R →
+    (od.map (·.1)).Nodup →
+    AllDicts R
+    ∧ (∀ pk ∈ od, ∃ ad, partyAllocation A kvs prev max pk = .ok ad ∧ ∀ c, look R c pk.1 =
+        (match D.get? ad.reverse c with | some s => some s | Option.none => look res c pk.1))
+    ∧ (∀ p, p ∉ od.map (·.1) → ∀ c, look R c p = look res c p)
+  | [], res, R, hres, h, _ => by
+      have : R = res := by cases h; rfl
+      subst this
+      refine ⟨hres, ?_, ?_⟩
+      · intro pk hpk
+        cases hpk
+      · intro p _ c
+        rfl
+  | pk :: rest, res, R, hres, h, hnd => by
+      simp only [List.foldlM_cons] at h
+      simp only [List.map_cons, List.nodup_cons] at hnd
+      cases had : partyAllocation A kvs prev max pk with
+      | error e => rw [had] at h; cases h
+      | ok ad =>
+        rw [had] at h
+        simp only [ok_bind] at h
+        obtain ⟨r1, h1, hd1, hl1⟩ := enterAllocation_look pk.1 ad res hres
+        rw [h1] at h
+        simp only [ok_bind] at h
+        obtain ⟨hdR, hparts, hothers⟩ := byParty_fold_look A kvs prev max rest r1 R hd1 h hnd.2
+        refine ⟨hdR, ?_, ?_⟩
+        · intro pk' hpk'
+          simp only [List.mem_cons] at hpk'
+          rcases hpk' with hpk' | hpk'
+          · subst hpk'
+            refine ⟨ad, had, fun c => ?_⟩
+            rw [hothers pk'.1 hnd.1 c, hl1 c pk'.1]
+            simp
+          · obtain ⟨ad', had', hl'⟩ := hparts pk' hpk'
+            refine ⟨ad', had', fun c => ?_⟩
+            have hne : ¬ pk'.1 = pk.1 := by
+              intro e
+              exact hnd.1 (e ▸ List.mem_map.mpr ⟨pk', hpk', rfl⟩)
+            rw [hl' c, hl1 c pk'.1]
+            simp [hne]
+        · intro p hp c
+          simp only [List.map_cons, List.mem_cons, not_or] at hp
+          rw [hothers p hp.2 c, hl1 c p]
+          simp [hp.1]
+
+/-- **ByParty, spelled out.**  In the table the wrapper returns, the seats of party `p` in constituency `c` are what the
+    allocator gave `c` when it split `p`'s seats (by `p`'s votes, previous gains and caps in the constituencies); a
+    party the overall evaluator did not seat has no entry anywhere; constituencies nobody was seated in are present
+    and empty.  (Distinct keys of the overall result: a Python dict.) -/
+theorem byParty_pointwise (needs : Bool) (O A : Sem) (a : Args) (R : D)
+    (h : byPartyLaw needs O A a = .ok (.dict R))
+    (hnd : ∀ od, O { votes := (match voteTotals a.votes with | .ok v => v | .error _ => .none),
+                     n := seatsForm needs (a.n.getD .none) } = .ok (.dict od) → (od.map (·.1)).Nodup) :
+    ∃ (od kvs : D), a.votes = .dict kvs
+      ∧ (∀ pk ∈ od, ∃ ad, partyAllocation A kvs (a.prev.getD (.dict [])) (a.max.getD (.dict [])) pk = .ok ad
+          ∧ ∀ c, look R c pk.1 = D.get? ad.reverse c)
+      ∧ (∀ p, p ∉ od.map (·.1) → ∀ c, look R c p = Option.none)
+      ∧ (∀ q ∈ kvs, D.has R q.1 = true) := by
+  simp only [byPartyLaw] at h
+  cases hov : voteTotals a.votes with
+  | error e => rw [hov] at h; cases h
+  | ok ov =>
+    rw [hov] at h hnd
+    simp only [ok_bind] at h hnd
+    cases hO : O { votes := ov, n := seatsForm needs (a.n.getD .none) } with
+    | error e => rw [hO] at h; cases h
+    | ok ores =>
+      rw [hO] at h
+      simp only [ok_bind] at h
+      cases ores with
+      | dict od =>
+        simp only [V.items, ok_bind] at h
+        cases hv : a.votes with
+        | dict kvs =>
+          rw [hv] at h
+          simp only [ok_bind] at h
+          cases hf : od.foldlM (fun (res : D) pk => do
+              let ad ← partyAllocation A kvs (a.prev.getD (.dict [])) (a.max.getD (.dict [])) pk
+              enterAllocation pk.1 res ad) [] with
+          | error e => rw [hf] at h; cases h
+          | ok res =>
+            rw [hf] at h
+            have hR : R = fillEmpty kvs res := by cases h; rfl
+            obtain ⟨_, hparts, hothers⟩ := byParty_fold_look A kvs _ _ od [] res allDicts_nil hf (hnd od hO)
+            refine ⟨od, kvs, rfl, ?_, ?_, ?_⟩
+            · intro pk hpk
+              obtain ⟨ad, had, hl⟩ := hparts pk hpk
+              refine ⟨ad, had, fun c => ?_⟩
+              rw [hR, look_fillEmpty, hl c, look_nil]
+              cases D.get? ad.reverse c <;> rfl
+            · intro p hp c
+              rw [hR, look_fillEmpty, hothers p hp c, look_nil]
+            · intro q hq
+              rw [hR]
+              exact has_fillEmpty kvs res q hq
+        | num _ => rw [hv] at h; cases h
+        | cand _ => rw [hv] at h; cases h
+        | tie _ => rw [hv] at h; cases h
+        | none => rw [hv] at h; cases h
+        | list _ => rw [hv] at h; cases h
+      | num _ => cases h
+      | cand _ => cases h
+      | tie _ => cases h
+      | none => cases h
+      | list _ => cases h
+
+
+/-- non-vacuity: D'Hondt overall and as allocator on two constituencies; party 1's only seat lies in constituency 101 -/
+example :
+    let a : Args := { votes := nested [(100, [(0, 5), (1, 1)]), (101, [(0, 3), (1, 4)])], n := some (.num 3) }
+    ∃ R, byPartyLaw false (denote haT) (denote haT) a = .ok (.dict R)
+      ∧ look R (.cand 101) (.cand 1) = some (.num 1) ∧ look R (.cand 100) (.cand 1) = Option.none
+      ∧ look R (.cand 100) (.cand 0) = some (.num 1) := by
+  refine ⟨[(.cand 100, sv [(0, 1)]), (.cand 101, sv [(0, 1), (1, 1)])], ?_⟩
+  decide +kernel
 
 /-! ### converters -/
 
